@@ -246,7 +246,7 @@ func btoi(b bool) int {
 func TestVfC15(t *testing.T) {
 	run := vfh.Begin("C15", "traversal")
 	defer run.End(t)
-	run.Require("ignore:none", "ignore:some", "delayed", "procs:1", "trailing-group")
+	run.Require("ignore:none", "ignore:some", "delayed", "procs:1", "trailing-group", "children>5000")
 	opts := cargen.DefaultOpts()
 	rapid.Check(t, func(rt *rapid.T) {
 		c := &vfC15Case{Spec: cargen.Gen(rt, opts)}
@@ -262,8 +262,13 @@ func TestVfC15(t *testing.T) {
 		c.Delays = rapid.SliceOfN(rapid.IntRange(0, 3), 0, 8).Draw(rt, "delays")
 		c.Procs = rapid.SampledFrom([]int{0, 1, 2, 16}).Draw(rt, "procs")
 		c.ReadSlow = rapid.IntRange(0, 3).Draw(rt, "slowReader") == 0
-		if vfh.Thorough() && rapid.IntRange(0, 40).Draw(rt, "bulk") == 0 {
-			c.Spec.BulkBlocks, c.Spec.BulkTxPerBlock = 2, 5200
+		if rapid.IntRange(0, vfh.Pick(24, 40)).Draw(rt, "bulk") == 0 {
+			// blocks with more children than the accumulator's initial per-group capacity (5000), followed by
+			// further groups, and a consumer that is slower than the reader
+			c.Spec.BulkBlocks, c.Spec.BulkTxPerBlock = rapid.IntRange(2, 3).Draw(rt, "bulkBlocks"), rapid.SampledFrom([]int{5000, 5001, 5200}).Draw(rt, "bulkTx")
+			if rapid.Bool().Draw(rt, "bulkSlowConsumer") {
+				c.Delays = []int{3, 3, 2}
+			}
 		}
 		run.SetLast(c)
 		st := map[string]int{}
